@@ -75,7 +75,9 @@ func (fs *FileSystemDataStore) CreateFile(ctx context.Context) (io.WriteCloser, 
 		finalPath := filepath.Join(fs.rootDir, base+".dat")
 		tempPath := filepath.Join(fs.rootDir, base+".tmp")
 
+		verifFSEvent("before", "reserve", finalPath, "", nil)
 		reservation, err := os.OpenFile(finalPath, os.O_WRONLY|os.O_CREATE|os.O_EXCL, 0o600)
+		verifFSEvent("after", "reserve", finalPath, "", nil)
 		if err != nil {
 			if os.IsExist(err) {
 				// Name taken by a committed or in-progress file; redraw.
@@ -83,16 +85,23 @@ func (fs *FileSystemDataStore) CreateFile(ctx context.Context) (io.WriteCloser, 
 			}
 			return nil, nil, err
 		}
+		verifFSEvent("before", "close", finalPath, "", nil)
 		if err := reservation.Close(); err != nil {
+			verifFSEvent("before", "remove", finalPath, "", nil)
 			os.Remove(finalPath)
+			verifFSEvent("after", "remove", finalPath, "", nil)
 			return nil, nil, err
 		}
 
+		verifFSEvent("before", "create-tmp", tempPath, "", nil)
 		file, err := os.OpenFile(tempPath, os.O_WRONLY|os.O_CREATE|os.O_EXCL, 0o600)
+		verifFSEvent("after", "create-tmp", tempPath, "", nil)
 		if err != nil {
 			// Release the reservation: this attempt owns no ".tmp" to ever
 			// rename over it.
+			verifFSEvent("before", "remove", finalPath, "", nil)
 			os.Remove(finalPath)
+			verifFSEvent("after", "remove", finalPath, "", nil)
 			if os.IsExist(err) {
 				// Orphaned ".tmp" from an aborted write; redraw.
 				continue
@@ -133,25 +142,33 @@ type renameOnCloseFile struct {
 }
 
 func (f *renameOnCloseFile) Write(p []byte) (int, error) {
+	verifFSEvent("before", "write", f.tempPath, "", p)
+	defer verifFSEvent("after", "write", f.tempPath, "", p)
 	return f.file.Write(p)
 }
 
 func (f *renameOnCloseFile) Close() error {
+	verifFSEvent("before", "fsync", f.tempPath, "", nil)
 	if err := f.file.Sync(); err != nil {
 		f.file.Close()
 		return err
 	}
+	verifFSEvent("after", "fsync", f.tempPath, "", nil)
 	if err := f.file.Close(); err != nil {
 		return err
 	}
+	verifFSEvent("before", "rename", f.tempPath, f.finalPath, nil)
 	if err := os.Rename(f.tempPath, f.finalPath); err != nil {
 		return err
 	}
+	verifFSEvent("after", "rename", f.tempPath, f.finalPath, nil)
+	verifFSEvent("before", "dirsync", filepath.Dir(f.finalPath), "", nil)
 	// fsync the directory so the rename itself survives power loss: once an
 	// external metastore commits the pointer, the publish must be durable.
 	if err := syncDir(filepath.Dir(f.finalPath)); err != nil {
 		return err
 	}
+	verifFSEvent("after", "dirsync", filepath.Dir(f.finalPath), "", nil)
 	f.published = true
 	return nil
 }
@@ -168,12 +185,16 @@ func (f *renameOnCloseFile) Abort() error {
 	// no information here.
 	f.file.Close()
 	var errs []error
+	verifFSEvent("before", "remove", f.tempPath, "", nil)
 	if err := os.Remove(f.tempPath); err != nil && !os.IsNotExist(err) {
 		errs = append(errs, err)
 	}
+	verifFSEvent("after", "remove", f.tempPath, "", nil)
+	verifFSEvent("before", "remove", f.finalPath, "", nil)
 	if err := os.Remove(f.finalPath); err != nil && !os.IsNotExist(err) {
 		errs = append(errs, err)
 	}
+	verifFSEvent("after", "remove", f.finalPath, "", nil)
 	return errors.Join(errs...)
 }
 
@@ -199,14 +220,18 @@ func (fs *FileSystemDataStore) TombstoneFile(ctx context.Context, filePointerByt
 	finalPath := string(filePointerBytes)
 
 	var errs []error
+	verifFSEvent("before", "remove", finalPath, "", nil)
 	if err := os.Remove(finalPath); err != nil && !os.IsNotExist(err) {
 		errs = append(errs, err)
 	}
+	verifFSEvent("after", "remove", finalPath, "", nil)
 	if strings.HasSuffix(finalPath, ".dat") {
 		tempPath := strings.TrimSuffix(finalPath, ".dat") + ".tmp"
+		verifFSEvent("before", "remove", tempPath, "", nil)
 		if err := os.Remove(tempPath); err != nil && !os.IsNotExist(err) {
 			errs = append(errs, err)
 		}
+		verifFSEvent("after", "remove", tempPath, "", nil)
 	}
 	return errors.Join(errs...)
 }
@@ -282,7 +307,9 @@ func (fs *FileSystemDataStore) GetMaybeFilesForQuery(ctx context.Context, query 
 func (fs *FileSystemDataStore) Update(ctx context.Context, writes []WriteOperation, deletes []DeleteOperation) error {
 	// writes are no-op, it's stored in the files
 	for _, delete := range deletes {
+		verifFSEvent("before", "remove", string(delete.FilePointerBytes), "", nil)
 		os.Remove(string(delete.FilePointerBytes))
+		verifFSEvent("after", "remove", string(delete.FilePointerBytes), "", nil)
 	}
 	return nil
 }
